@@ -43,6 +43,7 @@ fn main() {
     match prop.as_str() {
         "C01" => props::c01::run(&report, &tier),
         "C02" => props::c02::run(&report, &tier),
+        "C07" => props::c07::run(&report, &tier),
         "C11" => props::c11::run(&report, &tier),
         "C16" => props::c16::run(&report, &tier),
         "lab" => {
